@@ -221,13 +221,16 @@ CHECKS['C04'] = dict(
          'parse does not depend on that switch - the recorded finding setext-in-quote is precisely the failure of that '
          'hypothesis and is exhibited on the model; lines indented as one list item (markers - + * and 1-9 digits with '
          '. or ), padding 1-4) parse to one single-item List whose item content is the parse of the original lines with '
-         'the same definitions. Proved for every token-type list in which only types that cannot start on the marked '
+         'the same definitions - in the general form (Props/C04_General.lean) with the marker at indentation 0-3 and '
+         'whitespace-only lines allowed, the content being the parse of the text with its spaces-only lines read as '
+         'an empty line (exactly B when there is none); every remaining hypothesis has a kernel-checked '
+         'counterexample reproduced on the code. Proved for every token-type list in which only types that cannot start on the marked '
          'line precede Quote/List, instantiated for the HTML and Markdown renderer lists. Tied to the code by scanner and '
          'block-buffer correspondence on the original and embedded texts; the metamorphic law itself is also explored on '
          'the implementation (AST of Document(text) vs Document(embed(text))).',
     note='Trusted: Lean kernel (axioms propext/Classical.choice/Quot.sound at most); correspondence harness; exporter. '
-         'Hypotheses of the list half (continuation lines start with a non-whitespace character after the indentation, '
-         'blank lines are exactly "\\n", marker indentation 0) and the flag-independence hypothesis of the quote half are '
+         'Hypotheses of the list half (first character not str.isspace; continuation lines start, after their own '
+         'spaces, with a non-isspace character or are spaces-only) and the flag-independence hypothesis of the quote half are '
          'stated in the theorems and in the evidence.',
     technique='Lean 4 proof (reader-by-reader simulation lemmas, equation between the two tokenizer runs) + block-buffer correspondence + metamorphic exploration',
     ref='DESIGN.md section 5, C04 and section 12')
